@@ -158,7 +158,7 @@ def wide_alphabet(width):
 
 def pair_alphabet(alpha, width):
     """reduced alphabet used inside pair products in the quick tier"""
-    if len(alpha) <= 16:
+    if len(alpha) <= 32:
         return list(alpha)
     m = (1 << width) - 1
     want = [0, 1, m, m - 1, 1 << (width - 1), (1 << (width - 1)) - 1,
@@ -746,8 +746,27 @@ def roundtrip_case(kind, vals, acc, detail=None):
     if bits2 != bits:
         acc.violation(f"{kind.name}:second_encode_differs", {**case, "first": got, "second": bits2.to01()},
                       "from_bits(as_bits()).as_bits() != as_bits()")
+    # byte interface of the same PDU (CSBK, data header, full LC, UDP/IPv4): same bits, zero padded to octets
+    bytes_bad = False
+    if hasattr(obj, "as_bytes") and hasattr(type(obj), "from_bytes"):
+        try:
+            by = obj.as_bytes()
+            padded = got + "0" * (-len(got) % 8)
+            if by != bitarray(padded).tobytes():
+                bytes_bad = True
+                acc.violation(f"{kind.name}:as_bytes_differs_from_as_bits", {**case, "bytes": by.hex(), "bits": got},
+                              "as_bytes() is not the octet packing of as_bits()")
+            elif type(obj).from_bytes(by).as_bits() != bits:
+                bytes_bad = True
+                acc.violation(f"{kind.name}:from_bytes_as_bytes_differs", {**case, "bytes": by.hex(), "bits": got},
+                              "from_bytes(as_bytes()).as_bits() != as_bits()")
+        except Exception as e:
+            bytes_bad = True
+            acc.violation(f"{kind.name}:exception_on_bytes_interface:" + exc_sig(e), {**case, "bits": got}, repr(e))
     if detail is not None:
         detail.update(bits=got, want=want, decoded=rd, second=bits2.to01())
+    if bytes_bad:
+        return "deviates"
     return "ok" if not (bad_fields or lost or bits2 != bits) else "deviates"
 
 
@@ -763,7 +782,7 @@ def w_fields(task):
     for i in range(lo, hi):
         vals = cases[i]
         out = roundtrip_case(kind, vals, acc)
-        acc.case(nontrivial=True, calls=4, outcome=(kname, out),
+        acc.case(nontrivial=True, calls=6 if kname[:3] in ('csb', 'dh_', 'flc', 'udp') else 4, outcome=(kname, out),
                  sample={"kind": kname, "values": {k: (v if v < (1 << 53) else hex(v)) for k, v in vals.items()}} if i == lo and lo == 0 else None)
     return acc
 
